@@ -122,7 +122,7 @@ def main():
     rep.count("canaries", len(picked))
     rep.count("canaries_rejected", rej)
     # a dropped label is only visible when it was required: with the filter off every defined label is
-    if rej * 10 < len(picked) * 8:
+    if rej < len(picked):
         raise common.MachineryError("canaries: only %d of %d corrupted outputs were rejected" % (rej, len(picked)))
     return rep.finish({"exhaustive": False, "positions": len(POS), "target_kinds": len(KINDS), "pairs_exhaustive": thorough})
 
